@@ -53,6 +53,7 @@ PF = gen.Profile(
     teams=True,
     weeks=(2, 5),
     max_slots=12,
+    start_tod=True,
 )
 PF_PLAIN = replace(PF, calendars=False, zones=False, limits=False, task_limits=False, res_groups=False, depth=2)
 
